@@ -134,6 +134,12 @@ class GridRule:
                             if not ok:
                                 return False, f"callee {t.qualname} does not return Grid: {why}"
                         return True, "callee(s) return Grid"
+            # a call through a *local callable* (a name bound to a closure, a functools.partial, the result of a factory) is a call whose callee the rule
+            # cannot see: what it returns is unknown, not "computed" - undecided
+            if isinstance(e.func, ast.Name) and e.func.id not in ("int", "float", "abs", "min", "max", "sum", "round", "len", "list", "tuple") \
+                    and (e.func.id in f.params or any(
+                        isinstance(x, ast.Name) and x.id == e.func.id and isinstance(x.ctx, ast.Store) for x in ast.walk(f.node))):
+                raise AnalysisError(f"{f.loc(e)}: `{src(e)[:50]}` calls the local callable `{e.func.id}`; what it returns (a grid point or not) cannot be read")
             return False, f"`{src(e)[:70]}` is a computed value (not snapped onto the grid)"
         if isinstance(e, ast.Subscript):
             # row selection / permutation / prefix of a Grid array is Grid (whole rows or whole-array slices)
